@@ -205,9 +205,13 @@ def basis_spline(  # pylint: disable=dangerous-default-value  # always replaced 
                 + (1 - alpha(i + 1, d)) * cache[(d - 1) % 2][i + 1]
             )
 
+    # Null inputs (including values nullified by `extrapolation="na"`) yield
+    # nulls in every basis vector, even where the recursion weights vanish.
+    null_x = numpy.isnan(x)
+
     return FactorValues(
         {
-            i: cache[degree % 2][i]
+            i: numpy.where(null_x, numpy.nan, cache[degree % 2][i])
             for i in sorted(cache[degree % 2])
             if i > 0 or include_intercept
         },
